@@ -230,7 +230,9 @@ def corpus():
 
 # ---------------------------------------------------------------- round trip
 def named_other(txs):
-    return any(cc.af_id_of(t["af"]) != "default" for t in txs)
+    """some row names an affiliate other than the default one (a split for all affiliates names none)"""
+    return any(cc.af_id_of(t["af"]) != "default" and not (t["act"] == "Split" and cc.af_id_of(t["af"]) == "__global__")
+               for t in txs)
 
 
 def memo_untrimmed(txs):
@@ -238,17 +240,14 @@ def memo_untrimmed(txs):
 
 
 def default_split_goes_global(txs):
-    return (not named_other(txs)) and any(t["act"] == "Split" for t in txs)
+    return (not named_other(txs)) and any(t["act"] == "Split" and cc.af_id_of(t["af"]) == "default" for t in txs)
 
 
 def unstable_classes(txs):
-    """executable classes on which the second-generation bytes are known to differ"""
-    out = []
-    if memo_untrimmed(txs):
-        out.append("memo-whitespace-second-generation")
-    if default_split_goes_global(txs):
-        out.append("default-split-second-generation")
-    return out
+    """executable classes on which the second-generation bytes are known to differ: none since the fixes
+    cd7192e (memo written trimmed) and 96161d9 (a split for all affiliates does not need the affiliate
+    column); the two former classes are still counted, to show that they are exercised"""
+    return []
 
 
 def nontrivial(txs, impl):
@@ -340,8 +339,10 @@ def check_roundtrip(res, ctx, cases, label):
                         ctx["class_hits"].setdefault(c, txs)
                 else:
                     bad = ("second write", "writing the re-read list gives different bytes")
-            elif bad is None and unstable_classes(txs):
-                st["in-known-class-but-stable"] += 1
+            if bad is None and memo_untrimmed(txs):
+                st["stable-with-memo-whitespace(former class)"] += 1
+            if bad is None and default_split_goes_global(txs):
+                st["stable-with-default-split-read-back-global(former class)"] += 1
         if m["read"]["ok"] and m["same"] is False and bad is None:
             ctx["diffs"].append(("model says the re-read list is not the same (tx_same false) but the oracle accepts it", txs))
         if bad:
